@@ -83,6 +83,9 @@ def c08_file(draw):
                 stmts.append({"k": "cdecay", "x": "anti-" + c})
     for o in draw(st.lists(st.sampled_from(owners), max_size=3, unique=True)):
         stmts.append({"k": "cdecay", "x": N.ref_conj(o)})
+    if draw(st.sampled_from((False, False, True))):
+        # a CDecay for a name that has a Decay block of its own: ignored (with a warning), whatever the switch says
+        stmts.append({"k": "cdecay", "x": draw(st.sampled_from(owners))})
     if draw(st.booleans()):
         stmts.append(draw(G.inert_statement(stable, kinds=("pythia", "jetset", "ls", "lspw", "photos", "particle"))))
     stmts = list(draw(st.permutations(stmts)))
